@@ -189,7 +189,8 @@ def serve(om, ex, L, M, ctype_header, accessor, raw, envkw, onebyte=False, via_c
         seen['done'] = True
         return 'ok'
     app.route('/p', 'POST', h)
-    env = wsgi.environ('POST', '/p', input=stream, ctype=ctype_header, **envkw)
+    hdrs = {'Connection': ['keep-alive', 'Keep-Alive, TE'][len(raw) % 2]} if len(raw) % 3 else None      # most requests arrive on keep-alive connections
+    env = wsgi.environ('POST', '/p', input=stream, ctype=ctype_header, headers=hdrs, **envkw)
     obs = {'hang': False}
     try:
         c = wsgi.call(app, env)
@@ -332,14 +333,18 @@ def mp_cases(M):
     return out, hdr_t, hdr_f
 
 
-def judge_mp(obs, L, M, fields, total, longest=0):
+def judge_mp(obs, L, M, fields, total, longest=0, count=None):
     if obs['hang']:
         return 'hang', 'step horizon exceeded'
     if obs.get('escaped'):
         return 'escaped', f'exception escaped: {obs["escaped"]}'
     code, seen = obs['code'], obs['seen']
     if L is not None and total > L:
-        return None if code == 413 else ('limit-not-enforced', f'{total}-byte multipart body, limit {L}: status {code}')
+        if code != 413:
+            return 'limit-not-enforced', f'{total}-byte multipart body, limit {L}: status {code}'
+        if count is not None and count(obs['pos']) > L + M:
+            return 'over-consumed', f'{count(obs["pos"])} bytes of the {total}-byte multipart body were taken from the stream before the 413 (limit {L} + buffer {M})'
+        return None
     text_total = sum(len(d) for _, fn, d in fields if fn is None)
     cost = sum(len(refmp.cd(nm, fn)) + (len(d) if fn is None else 0) for nm, fn, d in fields)
     exp_forms = {nm: d.decode() for nm, fn, d in fields if fn is None}
@@ -376,9 +381,13 @@ def work_multipart(spec):
     om = sut.load()
     c = res['counters']
     cases, hdr_t, hdr_f = mp_cases(M)
-    for fields in cases:
+    runs = [(fields, b'\r\n') for fields in cases]
+    # the bulk of the body behind the closing delimiter (an epilogue counts like every other byte of the body)
+    big = b'\r\n' + b'E' * (3 * max(L or 0, M) + 50)
+    runs += [([('t', None, b'z' * 2)], big), ([('f', 'n.bin', b'q' * 3)], big), ([], big)]
+    for fields, epi in runs:
         parts = [(refmp.cd(nm, fn), d) for nm, fn, d in fields]
-        body, _ = refmp.build(b'BND', parts, epilogue=b'\r\n')
+        body, _ = refmp.build(b'BND', parts, epilogue=epi)
         for framing, arg in (('cl', None), ('chunked', 7), ('chunked', M + 1)):
             raw, envkw, count, longest = encode(body, framing, arg)
             res['states'] += 1
@@ -389,7 +398,7 @@ def work_multipart(spec):
                                                 envkw, onebyte=onebyte), [])
                 res['execs'] += 1
                 res['transitions'] += obs['calls']
-                v = judge_mp(obs, L, M, fields, len(body), longest)
+                v = judge_mp(obs, L, M, fields, len(body), longest, count)
                 seen = obs['seen']
                 if v is None and seen.get('done') and any(fn and len(d) > M for _, fn, d in fields):
                     c['mp_file_intact'] += 1
@@ -401,7 +410,7 @@ def work_multipart(spec):
                                     f'{"ok" if v is None else v[0]}')
                 if v is not None:
                     core.add_violation(res, {'kind': 'multipart', 'L': L, 'M': M, 'fields': [[a, b, d] for a, b, d in fields],
-                                             'framing': framing, 'arg': arg, 'onebyte': onebyte},
+                                             'framing': framing, 'arg': arg, 'onebyte': onebyte, 'epilogue': epi},
                                        f'multipart L={L} M={M} fields={[(a, b, len(d)) for a, b, d in fields]} {framing}: {v[1]}',
                                        sig=f'multipart:{v[0]}')
     core.add_sample(res, {'kind': 'multipart', 'max_body_size': L, 'max_memfile_size': M,
@@ -475,13 +484,13 @@ def replay(case):
                 f'({case["arg"]}), read answers {case["choices"]}{" byte-at-a-time" if case["onebyte"] else ""}{" (the handler reads through request.copy())" if case.get("via_copy") else ""}: {v[1]}')
     fields = [(a, b, d) for a, b, d in case['fields']]
     parts = [(refmp.cd(nm, fn), d) for nm, fn, d in fields]
-    body, _ = refmp.build(b'BND', parts, epilogue=b'\r\n')
+    body, _ = refmp.build(b'BND', parts, epilogue=case.get('epilogue', b'\r\n'))
     raw, envkw, count, longest = encode(body, case['framing'], case['arg'])
     ex = EnvExplorer(merge=False, horizon=40 * (len(raw) + 10))
     obs = ex.replay(lambda e: serve(om, e, L, M, 'multipart/form-data; boundary=BND', 'multipart', raw, envkw,
                                     onebyte=case['onebyte']), [])
-    v = judge_mp(obs, L, M, fields, len(body), longest)
+    v = judge_mp(obs, L, M, fields, len(body), longest, count)
     if v is None:
         return None
-    return (f'max_body_size={L} max_memfile_size={M} multipart fields {[(a, b, len(d)) for a, b, d in fields]} '
-            f'framing {case["framing"]}({case["arg"]}): {v[1]}')
+    return (f'max_body_size={L} max_memfile_size={M} multipart fields {[(a, b, len(d)) for a, b, d in fields]} followed by an epilogue of '
+            f'{len(case.get("epilogue", b"  "))} bytes, framing {case["framing"]}({case["arg"]}): {v[1]}')
